@@ -69,7 +69,7 @@ def _with_meta(metas, fn):
 # ---- C01 -------------------------------------------------------------------------------------
 def run_c01(ctx):
     n = _tier(ctx, 24, 300)
-    jobs = pc.corpus_jobs(['S18_*.scn', 'S11_*.scn']) + pc.generated_jobs('C01', ctx['seed'], n, ['entities', 'entities', 'mixed'])
+    jobs = pc.corpus_jobs(['S18_*.scn', 'S11_*.scn', 'R1_*.scn']) + pc.generated_jobs('C01', ctx['seed'], n, ['entities', 'entities', 'mixed'])
     out = pc.run_scenarios('C01', ctx, jobs, [oracles.c01_entities], nontrivial=pc.received_kinds)
     out['opstats']['entity_model_replays'] = _absent(out)
     return pc.make_result('C01', ctx, out, 'frames of generated spawn/despawn histories (1..3 clients, paced frames, marks before connection, late joins) + corpus; non-trivial = distinct (scenario, receiver, entity message kind, uuid) received')
@@ -104,13 +104,15 @@ def _c03_oracle(tr, origin, meta):
     out = oracles.c01_entities(tr, origin) + oracles.c05_parents(tr, origin)
     if meta:
         out += oracles.c02_values(tr, origin, meta['types']) + oracles.c06_assets(tr, origin, meta['enabled'])
+    else:
+        out += oracles.c02_values(tr, origin)        # corpus scenarios register every type on every peer
     return out
 
 
 def run_c03(ctx):
     n = _tier(ctx, 20, 240)
     jobs, metas = _jobs_from(scen.join, 'C03', ctx['seed'], n)
-    jobs = pc.corpus_jobs(['S18_*.scn']) + jobs
+    jobs = pc.corpus_jobs(['S18_*.scn', 'S11_*.scn', 'R1_*.scn']) + jobs
     out = pc.run_scenarios('C03', ctx, jobs, [_with_meta(metas, _c03_oracle)], nontrivial=pc.received_kinds)
     out['opstats']['entity_model_replays'] = _absent(out)
     return pc.make_result('C03', ctx, out, 'frames of histories in which the last client joins at a random moment (idle or while the others keep writing), 8 switch combinations; non-trivial = distinct (scenario, receiver, kind, key) received',
